@@ -763,7 +763,11 @@ func runSeqs(j *proto.Job, res *proto.Result) {
 			res.SeqCalls++
 			got := outKey(b.call(op, false))
 			if got != canon[op] {
-				res.SeqDiffs = append(res.SeqDiffs, proto.SeqResult{Seq: seq, Call: i, Op: op, Canon: trunc(canon[op], 400), Got: trunc(got, 400)})
+				sr := proto.SeqResult{Seq: seq, Call: i, Op: op, Canon: trunc(canon[op], 400), Got: trunc(got, 400)}
+				if strings.HasPrefix(got, "B:") && strings.HasPrefix(canon[op], "B:") {
+					sr.ExamplesOnly = ref.OnlyExamplesDiffer([]byte(canon[op][2:]), []byte(got[2:]))
+				}
+				res.SeqDiffs = append(res.SeqDiffs, sr)
 				break
 			}
 		}
